@@ -981,6 +981,9 @@ func c07(c *core.Ctx) {
 	c.Run("nil-stays-nil", func() { c07NilStaysNil(c) })
 	c.Run("suicide-journalled-once", func() { c07SuicideJournalledOnce(c) })
 
+	c.Clause("C07.12", "a write the cache accepts reaches the trie: StorageCache.SetState records every write in the dirty map, on every path — redo writes a published log's value without reading the slot first, so a cleared slot the cache has not seen yet must still be flushed as a delete, or the replayed storage root stays at the parent's")
+	c.Run("setstate-always-dirty", func() { c07SetStateAlwaysDirty(c) })
+
 	c.NotDecidedf("that undo restores the same VALUE (only that it writes the same locations from the recorded OldVal); deep-copy aliasing of OldVal; nesting/interleaving behaviour of snapshots as histories; equality of replayed and executed state")
 }
 
